@@ -184,6 +184,43 @@ def driveC11 (args : List String) : String :=
     | _, _ => "bad-op"
   | _ => "bad-op"
 
+/-- `k=v1,v2|k2=v` (hex; `-` = empty map) -/
+def parseMD (sep : String) (arg : String) : Creds.MD :=
+  if arg == "-" || arg.isEmpty then [] else
+  (arg.splitOn sep).filterMap fun kv =>
+    match kv.splitOn "=" with
+    | [k, vs] => (hexArg k).map fun kb => (kb, (vs.splitOn ",").filterMap hexArg)
+    | _ => none
+
+/-- canonical rendering as the harness does: keys sorted, `k=v,v;k=v` -/
+def showMD (md : Creds.MD) : String :=
+  let keys := (md.map (·.1)).eraseDups
+  let keys := keys.toArray.qsort (fun a b => toHex a < toHex b) |>.toList
+  if keys.isEmpty then "-" else
+  ";".intercalate (keys.map fun k => showBytes k ++ "=" ++ ",".intercalate ((Creds.MD.get md k).map showBytes))
+
+def driveC13 (args : List String) : String :=
+  match args with
+  | ["apply", sec, caller, creds] =>
+    let secure := sec == "secure=1"
+    let callerArg := (caller.drop 7).toString
+    let outgoing : Option Creds.MD := if callerArg == "-" then none else some (parseMD "|" callerArg)
+    let credArg := (creds.drop 6).toString
+    let c : Option Creds.PerRPC :=
+      if credArg == "none" then none else
+      match credArg.splitOn ";" with
+      | [s, e, m] =>
+        let md := parseMD "|" (m.drop 3).toString
+        some ⟨s == "sec=1", if e == "err=1" then none else some (md.map fun (k, vs) => (k, vs.headD []))⟩
+      | _ => none
+    match Creds.apply c secure outgoing with
+    | .ok out n => s!"ok {showMD (out.getD [])} credcalls={n}"
+    | .error n => s!"error credcalls={n}"
+  | ["peer", kind, conn] =>
+    let from_ := if kind == "unary" then Gen.unaryPeerTLSFrom else Gen.streamPeerTLSFrom
+    s!"tls={b01 (Creds.peerHasTLS from_ (conn == "conntls=1"))}"
+  | _ => "bad-op"
+
 def dispatch (line : String) : String :=
   match (line.splitOn " ").filter (· ≠ "") with
   | "C14" :: rest => driveC14 rest
@@ -191,6 +228,7 @@ def dispatch (line : String) : String :=
   | "C07" :: rest => driveC07 rest
   | "C12" :: rest => driveC12 rest
   | "C11" :: rest => driveC11 rest
+  | "C13" :: rest => driveC13 rest
   | _ => "bad-op"
 
 partial def loop (h : IO.FS.Stream) (out : IO.FS.Stream) : IO Unit := do
